@@ -307,6 +307,32 @@ fn main() {
             }
             if bad.is_empty() { println!("OK partwin {kind}: {count} streams agree with one window per key") } else { println!("REPRODUCED partwin: {}", bad.join("; ")) }
         }
+        // agg: Sum / Avg / Min / Max on every batch of <= 3 events whose field `value` is missing, an Int, a Float, NaN, or a string, through apply and
+        // apply_refs, against the definitions over the valid numeric values (missing, non-numeric and NaN ignored; Null when none is valid for avg/min/max)
+        "agg" => {
+            use varpulis_runtime::aggregation::{AggregateFunc, Avg, Max, Min, Sum};
+            let vals: Vec<Option<Value>> = vec![None, Some(Value::Int(3)), Some(Value::Int(-2)), Some(Value::Float(1.5)), Some(Value::Float(f64::NAN)), Some(Value::Str("x".into())), Some(Value::Float(-0.0))];
+            let mut bad = Vec::new(); let mut count = 0usize;
+            for len in 0..=3usize { for id in 0..vals.len().pow(len as u32) {
+                let mut x = id; let mut evs = Vec::new(); let mut nums: Vec<f64> = Vec::new();
+                for _ in 0..len { let v = &vals[x % vals.len()]; x /= vals.len();
+                    let mut e = Event::new("E"); if let Some(v) = v { e = e.with_field("value", v.clone()); match v { Value::Int(i) => nums.push(*i as f64), Value::Float(f) if !f.is_nan() => nums.push(*f), _ => {} } }
+                    evs.push(e) }
+                let refs: Vec<&Event> = evs.iter().collect();
+                let sum: f64 = nums.iter().sum();
+                let want: Vec<(&str, Option<f64>)> = vec![("sum", Some(sum)), ("avg", if nums.is_empty() { None } else { Some(sum / nums.len() as f64) }),
+                    ("min", nums.iter().cloned().fold(None, |a: Option<f64>, b| Some(a.map_or(b, |a| a.min(b))))), ("max", nums.iter().cloned().fold(None, |a: Option<f64>, b| Some(a.map_or(b, |a| a.max(b)))))];
+                let aggs: Vec<Box<dyn AggregateFunc>> = vec![Box::new(Sum), Box::new(Avg), Box::new(Min), Box::new(Max)];
+                for (agg, (name, w)) in aggs.iter().zip(want.iter()) {
+                    for (path, got) in [("apply", agg.apply(&evs, Some("value"))), ("apply_refs", agg.apply_refs(&refs, Some("value")))] {
+                        count += 1;
+                        let ok = match (w, &got) { (None, Value::Null) => true, (Some(f), Value::Float(g)) => (f - g).abs() <= 1e-9 * f.abs().max(1.0), (Some(f), Value::Int(g)) => *f == *g as f64, _ => false };
+                        if !ok && bad.len() < 3 { bad.push(format!("{name}.{path} on {:?} = {got:?}, expected {w:?}", evs.iter().map(|e| e.get("value").cloned()).collect::<Vec<_>>())) }
+                    }
+                }
+            } }
+            if bad.is_empty() { println!("OK agg: {count} cases agree with the definitions") } else { println!("REPRODUCED agg: {}", bad.join("; ")) }
+        }
         "seqstep" => {
             // bounded probe of "every reported match is a genuine occurrence" through SaseEngine::process: SEQ(S as s, X [filter] as t) and
             // SEQ(S as s, X [filter] as t, Y as u) over every stream of 4 events from a 6-event alphabet; every reported match is checked against
